@@ -218,6 +218,11 @@ def run_enc(res, case):
         except UnicodeEncodeError:
             continue
         want = render(ctx, enc, s)
+        # the same bytes first pass through a template of another encoding
+        # (where they mean another text, or nothing): what this template
+        # makes of them must not depend on that
+        render(ctx, ENCODINGS[(ENCODINGS.index(enc) + 1) % len(ENCODINGS)],
+               raw)
         got = render(ctx, enc, raw)
         n += 1
         if raw.decode('latin-1') != s:
